@@ -1481,8 +1481,13 @@ class VacancyMediated(object):
         symmprobSV2 = np.array([np.sqrt(prob[i] * prob[f]) for i,f in self.om2_SP])
         D0ss = np.dot(self.Dom2, omega2 * symmprobSV2) / self.N
         D0sv = -D0ss
-        D0vv = (np.dot(self.Dom1, omega1 * symmprobSV1) -
-                np.dot(self.Dom1_om0 + self.Dom2_om0, omega0 * symmprobV0)) / self.N
+        # the bare (omega0) reference terms carry the solute site probability of the state they refer to
+        probSom1 = np.array([probS[self.kineticsvWyckoff[i][0]] for i, f in self.om1_SP])
+        probSom2 = np.array([0.5 * (probS[self.kineticsvWyckoff[i][0]] + probS[self.kineticsvWyckoff[f][0]])
+                             for i, f in self.om2_SP])
+        om0symm = omega0 * symmprobV0
+        D0vv = (np.dot(self.Dom1, omega1 * symmprobSV1 - om0symm[self.om1_jt] * probSom1) -
+                np.dot(self.Dom2, om0symm[self.om2_jt] * probSom2)) / self.N
         D2vv = D0ss.copy()
 
         # 4b. Bias vectors (before correction) and rate matrices
@@ -1493,6 +1498,8 @@ class VacancyMediated(object):
                    - np.dot(self.om2_om0, omega0)
         for sv, starindex in enumerate(self.vstar2kin):
             svvacindex = self.kin2vacancy[starindex]  # vacancy
+            # non-interacting probability of the pair state (solute site probability included)
+            probSVsqrt0 = probVsqrt[sv] * np.sqrt(probS[self.kineticsvWyckoff[starindex][0]])
             delta_om[sv, sv] += np.dot(self.om1escape[sv, :], omega1escape[sv, :]) - \
                                 np.dot(self.om1_om0escape[sv, :], omega0escape[svvacindex, :]) - \
                                 np.dot(self.om2_om0escape[sv, :], omega0escape[svvacindex, :])
@@ -1502,8 +1509,8 @@ class VacancyMediated(object):
             biasSvec[sv] = -np.dot(self.om2bias[sv, :], omega2escape[sv, :]) * np.sqrt(prob[starindex])
             # removed the om2 contribution--will be added back in later. Separation necessary for large_om2 case
             biasVvec[sv] = np.dot(self.om1bias[sv, :], omega1escape[sv, :]) * np.sqrt(prob[starindex]) - \
-                           np.dot(self.om1_b0[sv, :], omega0escape[svvacindex, :]) * probVsqrt[sv] - \
-                           np.dot(self.om2_b0[sv, :], omega0escape[svvacindex, :]) * probVsqrt[sv]
+                           np.dot(self.om1_b0[sv, :], omega0escape[svvacindex, :]) * probSVsqrt0 - \
+                           np.dot(self.om2_b0[sv, :], omega0escape[svvacindex, :]) * probSVsqrt0
             # - biasSvec[sv]
         biasVvec_om2 = -biasSvec
 
